@@ -4,7 +4,13 @@ import json, sys
 import os, glob
 src = {"checks": {}, "not_applicable": {}, "source_commits": [], "notes": "See DESIGN.md. ./check <ID> --tier quick|thorough; evidence/<ID>.json rewritten on every run; KNOWN_FINDINGS.json (assembled from known_findings/<ID>.json) lists recorded defects."}
 for fn in sorted(glob.glob('/verif/manifest/C*.json')):
-    src["checks"][os.path.basename(fn)[:-5]] = json.load(open(fn))
+    pid = os.path.basename(fn)[:-5]
+    evp = f'/verif/evidence/{pid}.json'
+    # claim a property only once its check has produced a clean evidence file
+    if not os.path.exists(evp) or json.load(open(evp)).get("violations", 1) != 0:
+        print("not claiming", pid, "(no clean evidence yet)")
+        continue
+    src["checks"][pid] = json.load(open(fn))
 if os.path.exists('/verif/manifest/_global.json'):
     src.update(json.load(open('/verif/manifest/_global.json')))
 # assemble KNOWN_FINDINGS.json
